@@ -25,9 +25,14 @@ def build(pa, units, names=None):
 
 
 def disorder(pa, units, spec, names=None, mk=None):
-    cont = build(pa, units, names)
-    d = mk(pa) if mk else gen.make_dissim(pa, spec)
-    return float(cont.get_best_alignment(d).disorder)
+    """in a forked child with a hard limit: a solver that crashes or never returns on a (transformed) input must not take the check down"""
+    import alignchk as ac
+
+    def job():
+        cont = build(pa, units, names)
+        d = mk(pa) if mk else gen.make_dissim(pa, spec)
+        return float(cont.get_best_alignment(d).disorder)
+    return ac.run_forked(300, job)
 
 
 def mk_dissim(kind, alpha, beta, de, labels):
@@ -76,35 +81,44 @@ def run(rep, tier, seed, pa):
         mk = mk_dissim(kind, alpha, beta, de, labels)
         try:
             base = disorder(pa, units, None, mk=mk)
-        except Exception as e:
+        except BaseException as e:
             rep.case()
             rep.violation("raises", {"units": units, "kind": kind, "error": repr(e)}, "get_best_alignment raised %r" % (e,))
             continue
         nunits = sum(len(u) for u in units)
         results = []
+
+        def tr(name, thunk, want):
+            try:
+                results.append((name, thunk(), want))
+            except BaseException as e:      # the library raising / crashing / not returning on a transformed input is a failing input
+                rep.case()
+                rep.violation("raises-after:" + name.split("*")[0].split("+")[0].rstrip("-0123456789."),
+                              {"units": units, "kind": kind, "alpha": alpha, "beta": beta, "de": de, "transformation": name, "error": repr(e)},
+                              "get_best_alignment raised %r after %s (it returned %r before)" % (e, name, base))
         # 1. annotators renamed by a bijection that reverses the sort order
         names = list(reversed(["zeta", "mu", "kappa", "beta", "alpha"][:n]))
         rng.shuffle(names)
-        results.append(("rename-annotators", disorder(pa, units, None, names=names, mk=mk), base))
+        tr("rename-annotators", lambda: disorder(pa, units, None, names=names, mk=mk), base)
         # 2. translation
         c = rng.choice([-512, -3, 7, 1000, 4096]) + rng.randrange(0, 64) / 64.0
-        results.append(("shift%+g" % c, disorder(pa, transform_units(units, lambda s, e, l: (s + c, e + c, l)), None, mk=mk), base))
+        tr("shift%+g" % c, lambda: disorder(pa, transform_units(units, lambda s, e, l: (s + c, e + c, l)), None, mk=mk), base)
         # 3. scaling
         f = rng.choice([2.0, 4.0, 0.5, 3.0, 5.0])
-        results.append(("scale*%g" % f, disorder(pa, transform_units(units, lambda s, e, l: (s * f, e * f, l)), None, mk=mk), base))
+        tr("scale*%g" % f, lambda: disorder(pa, transform_units(units, lambda s, e, l: (s * f, e * f, l)), None, mk=mk), base)
         # 4. category renaming
         if kind == "abs":
             ren = dict(zip(labels, rng.sample(["zz", "B", "k9", "Aa", "m"], 3)))
             ren[None] = None
-            results.append(("rename-categories-arbitrary", disorder(pa, transform_units(units, lambda s, e, l: (s, e, ren[l])), None, mk=mk), base))
+            tr("rename-categories-arbitrary", lambda: disorder(pa, transform_units(units, lambda s, e, l: (s, e, ren[l])), None, mk=mk), base)
         elif kind in ("pre", "ord"):
             ren = dict(zip(sorted(labels), ["b1", "b2", "c0"]))
             mk2 = mk_dissim(kind, alpha, beta, de, [ren[l] for l in labels])
-            results.append(("rename-categories-order-preserving", disorder(pa, transform_units(units, lambda s, e, l: (s, e, ren[l])), None, mk=mk2), base))
+            tr("rename-categories-order-preserving", lambda: disorder(pa, transform_units(units, lambda s, e, l: (s, e, ren[l])), None, mk=mk2), base)
         # 5. delta_empty scaling in all components
         cde = rng.choice([0.5, 2.0, 4.0])
         mk3 = mk_dissim(kind, alpha, beta, de * cde, labels)
-        results.append(("delta_empty*%g" % cde, disorder(pa, units, None, mk=mk3), base * cde))
+        tr("delta_empty*%g" % cde, lambda: disorder(pa, units, None, mk=mk3), base * cde)
         for name, got, want in results:
             rep.count("transformation=" + name.split("*")[0].split("+")[0].split("-5")[0])
             rep.case(sample={"shape": [len(u) for u in units], "kind": kind, "transformation": name, "disorder": got, "expected": want},
@@ -118,13 +132,16 @@ def run(rep, tier, seed, pa):
         if ci % 4 == 0 and all(len(u) > 0 for u in units):
             s = rng.randrange(10 ** 6)
             gs = []
+            import alignchk as ac
             for m in (mk, mk3):
-                np.random.seed(s)
-                cont = build(pa, units)
+                def gjob(m=m):
+                    np.random.seed(s)
+                    cont = build(pa, units)
+                    return float(cont.compute_gamma(m(pa), n_samples=4, sampler=pa.ShuffleContinuumSampler()).gamma)
                 try:
-                    gs.append(float(cont.compute_gamma(m(pa), n_samples=4, sampler=pa.ShuffleContinuumSampler()).gamma))
-                except Exception as e:
-                    gs.append(e)
+                    gs.append(ac.run_forked(600, gjob))     # forked: a solver crashing on a chance sample must not take the check down
+                except BaseException as e:
+                    gs.append(Exception("%s: %s" % (type(e).__name__, e)))
             rep.count("gamma_pairs")
             rep.case(sample={"gamma": [str(g) for g in gs], "delta_empty_factor": cde})
             if any(isinstance(g, Exception) for g in gs) or not close(gs[0], gs[1], TAU2 * 4):
